@@ -226,6 +226,9 @@ func (h *Heap) havocSince(ms *ModSet, why string, since string) *Heap {
 	for _, hv := range havoced {
 		vc.closure(hv[0], hv[1], vc.u.heapSorts[hv[0]], c)
 	}
+	if ms != nil && ms.all && vc.afterHavocAll != nil {
+		vc.afterHavocAll(n)
+	}
 	return n
 }
 
@@ -280,6 +283,10 @@ type VC struct {
 	obligs   []*Oblig
 	ctr      map[string]int
 	heapCtr  int
+
+	// afterHavocAll re-assumes, on the heap that results from a call which may write anything, the facts that no
+	// code of the module can invalidate (contents of package-level tables and regexps: nothing writes them after init).
+	afterHavocAll func(*Heap)
 
 	unsupported []string        // constructs that make this function's result untrustworthy
 	abstracted  map[string]bool // havoced constructs (sound over-approximation)
